@@ -156,7 +156,9 @@ class Ctx:
         self.seed = int(seed)
         self.shard = shard
         self.shard_name = shard.get('name', 'main')
-        ss = np.random.SeedSequence([self.seed, int(hashlib.sha1(self.shard_name.encode()).hexdigest()[:8], 16)])
+        # thorough tier: the runner may run a shard several times ("replicas") with independent random streams; replica 0 is the plain shard
+        self.replica = int(shard.get('replica', 0))
+        ss = np.random.SeedSequence([self.seed, int(hashlib.sha1(self.shard_name.encode()).hexdigest()[:8], 16)] + ([self.replica] if self.replica else []))
         self.rng = np.random.default_rng(ss)
         self.evaluations = 0
         self.hits = {}
